@@ -22,6 +22,31 @@ TRUSTED = [
 ]
 
 
+def _containment_primitive(ctx: Ctx) -> None:
+    """The containment test the algebra branches on (quotient: `assumptions.refines(other.a)`)."""
+    P = RP.PTL
+    RP.rule_refines_order(ctx)
+    RP.rule_emptiness_precheck(ctx)
+    RP.rule_status_table(ctx, P + "verify_polytope_containment")
+    RP.rule_lp_compare(ctx, P + "verify_polytope_containment")
+    RP.rule_lp_objective(ctx, P + "verify_polytope_containment")
+    RP.rule_matrix_provenance(ctx, P + "verify_polytope_containment")
+    RP.rule_containment_every_row(ctx)
+
+
+def _simplify_primitive(ctx: Ctx) -> None:
+    """simplify() keeps the meaning of a list under its context: every result of compose / quotient / merge passes
+    through it (constructor and elimination), so the soundness verdicts of the algebra layer rest on it."""
+    P = RP.PTL
+    RP.rule_status_table(ctx, P + "reduce_polytope")
+    RP.rule_lp_compare(ctx, P + "reduce_polytope", tolerance_rule=False, require_boundary=False)
+    RP.rule_lp_objective(ctx, P + "reduce_polytope")
+    RP.rule_matrix_provenance(ctx, P + "reduce_polytope")
+    RP.rule_reduce_loop_discipline(ctx)
+    RP.rule_simplify_wiring(ctx)
+    RP.rule_polytope_roundtrip(ctx)
+
+
 def c05(ctx: Ctx) -> None:
     RA.rule_soundness(ctx, RA.GENERIC, ["compose", "quotient", "merge"])
     RA.rule_tl_operators(ctx)
@@ -32,8 +57,10 @@ def c01(ctx: Ctx) -> None:
     RK.rule_term_kernels(ctx, ["multiply", "add", "remove", "substitute", "isolate"])
     RP.rule_dispatcher(ctx)
     RP.rule_transform(ctx)
+    RK.rule_tactic4_certificate(ctx)
     RA.rule_forwarding(ctx)
     RA.rule_default_orders(ctx)
+    _simplify_primitive(ctx)
 
 
 def c02(ctx: Ctx) -> None:
@@ -41,14 +68,18 @@ def c02(ctx: Ctx) -> None:
     RK.rule_term_kernels(ctx, ["multiply", "add", "remove", "substitute", "isolate"])
     RP.rule_dispatcher(ctx)
     RP.rule_transform(ctx)
+    RK.rule_tactic4_certificate(ctx)
     RA.rule_forwarding(ctx)
     RA.rule_default_orders(ctx)
+    _containment_primitive(ctx)
+    _simplify_primitive(ctx)
 
 
 def c08(ctx: Ctx) -> None:
     RA.rule_soundness(ctx, RA.POLY, ["merge"])
     RA.rule_interfaces(ctx, RA.POLY, ["merge"])
     RA.rule_tl_operators(ctx)
+    _simplify_primitive(ctx)
     RA.rule_constructor(ctx, RA.POLY)
 
 
@@ -66,6 +97,9 @@ def c06(ctx: Ctx) -> None:
 def c15(ctx: Ctx) -> None:
     RA.rule_retention(ctx, RA.POLY)
     RA.rule_exactness(ctx, RA.POLY)
+    # "verbatim" rests on the list operators and on exact term equality (a tolerant == makes | and - drop near-equal terms)
+    RA.rule_tl_operators(ctx)
+    RS.rule_eq(ctx)
 
 
 def c16(ctx: Ctx) -> None:
@@ -88,6 +122,7 @@ def c04(ctx: Ctx) -> None:
     RP.rule_polarity(ctx, P + "_tactic_2", "refine", True, "constant-decrement")
     RP.rule_polarity(ctx, P + "_get_tlp_context", "refine", True, "none")
     RP.rule_tactic4_sign(ctx)
+    RK.rule_tactic4_certificate(ctx)
     RP.rule_matrix_provenance(ctx, P + "_tactic_2")
     RP.rule_matrix_provenance(ctx, P + "_get_tlp_context")
     RP.rule_kaykobad_guards(ctx)
@@ -174,6 +209,7 @@ def c14(ctx: Ctx) -> None:
 def c19(ctx: Ctx) -> None:
     RS.rule_eq(ctx)
     RS.rule_hash(ctx)
+    RS.rule_hash_order(ctx)
     RS.rule_copy(ctx)
     RK.rule_term_kernels(ctx, ["copy"])
 
@@ -197,6 +233,7 @@ def c03(ctx: Ctx) -> None:
     RP.rule_status_table(ctx, P + "is_polytope_empty")
     RP.rule_lp_compare(ctx, P + "verify_polytope_containment")
     RP.rule_lp_objective(ctx, P + "verify_polytope_containment")
+    RP.rule_containment_every_row(ctx)
     RP.rule_matrix_provenance(ctx, P + "verify_polytope_containment")
     RP.rule_matrix_provenance(ctx, P + "is_polytope_empty")
     RP.rule_lp_bounds(ctx)
@@ -253,14 +290,17 @@ _reg(
     "Decides the structural clauses of composition soundness: (a) every returning path of PolyhedralIoContract.compose/compose_tactics (wrappers inlined into IoContract.compose_tactics) discharges "
     "'A_res, contracts honoured |- A1, A2, G_res' for uninterpreted constraint predicates, every primitive outcome and every interface topology; (b) wrappers forward every argument to the same-named "
     "parameter and default tactic orders name only existing tactics; (c) the dispatcher returns a tactic's result or an unchanged copy and _transform hands each term the context plus the *current* other "
-    "terms minus itself; (d) the term kernels the tactics are built from (multiply, add, remove, substitute, isolate) satisfy their algebraic laws on a generic symbolic term.",
+    "terms minus itself; (d) the term kernels the tactics are built from (multiply, add, remove, substitute, isolate) satisfy their algebraic laws on a generic symbolic term; "
+    "(e) tactic 4, interpreted on chains of context rows with symbolic coefficients under every assignment of signs, only returns terms from which (with the rows used) the input term follows by a non-negative combination (Farkas certificate, multiplier signs are determined because they are monomials); "
+    "(f) the simplification every result passes through keeps the list's meaning structurally (reduce_polytope LP wiring, row bookkeeping, status table).",
     ["the TermList primitives meet their documented specs - whether tactics 1, 3, 5 choose rows whose solution bounds the term in the right direction depends on LP optima / sympy solutions and is not decided", NUMERIC_LIMIT],
 )
 _reg(
     "C02", c02, "other",
     "static analysis: AST abstract interpretation (provenance terms + Horn-closure judge) of quotient through the polyhedral entry points; kernel laws; dispatcher/_transform shape rules",
     "Decides the structural clauses of quotient soundness: every returning path of PolyhedralIoContract.quotient/quotient_tactics - all outcomes of refines (True/False) and of the three eliminations (ok / ValueError, "
-    "both except-branches) - discharges 'A, divisor honoured, quotient honoured |- A(C1), A(Q), G(C)'; wrappers forward arguments; dispatcher, _transform and term kernels as for C01.",
+    "both except-branches) - discharges 'A, divisor honoured, quotient honoured |- A(C1), A(Q), G(C)'; wrappers forward arguments; dispatcher, _transform, term kernels, the tactic-4 Farkas certificate and the simplification wiring as for C01; "
+    "the containment test the quotient branches on is wired as C03 requires (every right-hand row decided by an LP over the left rows, loop over all rows, status table, comparison direction).",
     ["the TermList primitives meet their documented specs", NUMERIC_LIMIT],
 )
 _reg(
@@ -269,7 +309,8 @@ _reg(
     "Decides the direction and operands of every containment test: IoContract.refines/__le__/contains_environment/contains_implementation ask exactly the expected sequents and return their conjunction, with the "
     "interface guard raising IncompatibleArgsError; PolyhedralTermList.refines decides the unconstrained cases in the right order and hands (self, other) matrices in order; verify_polytope_containment: "
     "left-empty => True before right-empty => False, LP objective = negated tested row over the left rows with the row's own bound relaxed by a positive amount, status 2 => False, a row is accepted iff "
-    "-fun <= bound (+ tolerance, boundary included) and the comparison of the floating-point optimum carries a tolerance; is_polytope_empty status table; every linprog call has free variable bounds.",
+    "-fun <= bound (+ tolerance, boundary included) and the comparison of the floating-point optimum carries a tolerance; the LP loop ranges over all right-hand rows and no row is passed over on a condition that ignores the right-hand bounds; "
+    "is_polytope_empty status table; every linprog call has free variable bounds.",
     ["whether a given tolerance is adequate for every input is not decided", NUMERIC_LIMIT],
 )
 _reg(
@@ -278,7 +319,8 @@ _reg(
     "Decides the structural clauses of elimination: dispatcher discipline (argument order, first non-None result, ValueError = declined, unchanged copy as fallback), _transform's helper context and ValueError fallback, the relaxation tail that drops "
     "every term still mentioning an eliminated variable, refine/relax flags of the two wrappers, every explicit failure inside a tactic is a ValueError, tactic 4 refuses to relax, TACTICS is total over the default orders, "
     "polarity of tactic 2 and of the tactic-5 LP (objective sign = -1 iff refine; the optimum enters with the same sign), tactic 4 admits only rows whose coefficient has the term's sign, Kaykobad row selection skips the term itself / rows with other "
-    "eliminated variables and checks the sign condition on every eliminated variable, and the kernels isolate/substitute/multiply/add/remove satisfy their laws (isolate∘substitute round trip).",
+    "eliminated variables and checks the sign condition on every eliminated variable, the kernels isolate/substitute/multiply/add/remove satisfy their laws (isolate∘substitute round trip), and tactic 4 run on symbolic chains of context rows "
+    "(depth 0-2, every sign pattern of the coefficients) returns only terms that, with the rows used, imply the input term by a non-negative combination (this is the rule that exposed defect D12).",
     ["the Kaykobad inequality itself, the active-set argument of tactic 5 and the adequacy of np.isclose(slack, 0) are numerical and not decided", NUMERIC_LIMIT],
 )
 PROPS["C05"]["technique"] = "static analysis: AST abstract interpretation with uninterpreted constraint predicates (provenance terms), membership truth tables over all topologies, Horn-closure entailment; every primitive outcome forked"
@@ -307,7 +349,7 @@ _reg(
     "static analysis: AST abstract interpretation of merge + constructor with uninterpreted predicates, Horn-closure judge in both directions; operator summaries of TermList.__or__/__sub__/__and__ derived from source",
     "merge: A_res |- A1, A2; A1, A2 |- A_res; A_res, G_res |- G1, G2; A1, A2, G1, G2 |- G_res on every returning path (the constructor's simplification step included), interface = unions by truth table, "
     "type guard raises IncompatibleArgsError, TermList.__or__ is the union of copies; the obligations are symmetric in the operands, so either call order is covered.",
-    ["simplify meets its documented spec (equivalence in context, result a sub-list)"],
+    ["simplify meets its documented spec (equivalence in context, result a sub-list); its source-level wiring (reduce_polytope LP matrices, row bookkeeping, status table) is checked, its numerical behaviour is not"],
     design_ref="DESIGN.md sections 2.3, 3 (C08)",
 )
 _reg(
@@ -362,7 +404,8 @@ _reg(
     "C15", c15, "other",
     "static analysis: must-retain truth tables over term-membership classes along every compose/merge path (syntactic tier) and Horn-closure exactness derivation under the no-connection hypothesis",
     "Decides a necessary condition of C15: a guarantee term present verbatim in an operand and touching no eliminated variable is still present in the result's guarantees or assumptions on every returning path, where 'removed because the same term is "
-    "in the simplification context' counts as a removal that must be covered by that context being part of the result; and with no connection the composition is exact (both directions) for uninterpreted predicates. The pinned tree violates this in "
+    "in the simplification context' counts as a removal that must be covered by that context being part of the result; no variable of the result's interface belongs to a set eliminated while computing the result's guarantees (so 'interface-level' "
+    "means the result's interface, vars_to_keep included); the list operators are the set operations and term equality is exact (a tolerant == would drop near-equal terms); and with no connection the composition is exact (both directions) for uninterpreted predicates. The pinned tree violates this in "
     "compose_tactics (mutual simplification context of g1/g2) - recorded as known finding D2.",
     ["retention of scaled or mutually implied (non-verbatim) duplicates depends on LP simplification and is not decided"],
 )
@@ -375,15 +418,16 @@ _reg(
 )
 _reg(
     "C17", c17, "other",
-    "static analysis: path enumeration (0/1/2 loop iterations) of the nested-list methods, reconstructing the quantifier each loop computes; wiring rules of merge / from_strings / constructor flags",
-    "Decides the quantifier shapes: contains_behavior = exists over alternatives (ValueError passed on), <= = for-all-left exists-right of the element <= in that direction, == = mutual <=, intersect = every pair's conjunction kept iff not empty, "
-    "constructor disjointness = every pair i<j, conjunction non-empty => ValueError (and only then), copies stored; compound merge intersects assumptions with and guarantees without the disjointness check and unions the interfaces.",
+    "static analysis: assumption-driven path enumeration of the nested-list methods (two or three alternatives a side, every assignment of the emptiness / containment answers), reconstructing the quantifier each loop computes; wiring rules of merge / from_strings / constructor flags",
+    "Decides the quantifier shapes: contains_behavior = exists over alternatives (ValueError passed on), <= = for-all-left exists-right of the element <= in that direction, == = mutual <=, intersect = every pair's conjunction (2x2 alternatives, all 16 emptiness assignments, both flag values) kept iff not empty, "
+    "constructor disjointness = all three pairs of three alternatives are tested by their conjunction, any one overlapping pair => ValueError (and only then), copies stored; compound merge intersects assumptions with and guarantees without the disjointness check and unions the interfaces.",
     ["emptiness answers on touching alternatives come from the LP and are not decided", NUMERIC_LIMIT],
 )
 _reg(
     "C19", c19, "other",
     "static analysis: field tables from constructor stores compared with the fields read by __eq__/__hash__/copy; interpreter check of copy(); kernel law of PolyhedralTerm.copy",
-    "Decides: every __eq__ compares each state field of self with the same field of other (never with itself), by conjunction, behind the same type guard; __hash__ exists next to __eq__ and reads only compared state (never identity); "
+    "Decides: every __eq__ compares each state field of self with the same field of other (never with itself), by conjunction, behind the same type guard; __hash__ exists next to __eq__ and reads only compared state (never identity) and does not expose the "
+    "insertion order of a dictionary field that == compares as a mapping (directly or through the __str__ it hashes); "
     "copy() returns the same interface and lists through the constructor, list copies copy every element, term copies do not share their dictionary; NestedTermList equality is mutual <=.",
     ["0.0 / -0.0 hashing and ulp-level effects of re-simplification in copy() are not decided"],
 )
